@@ -102,6 +102,7 @@ def cases(draw):
                           "depth": dc["name"]})
     spec["vars"] = variables
     spec["mode"] = draw(st.sampled_from(["raw", "decoded", "dask", "file"]))
+    spec.update(draw(S.storage_options(conv)))
     return {
         "spec": spec,
         "positive_down": draw(st.sampled_from([None, True, False, True, False])),
